@@ -89,25 +89,39 @@ func ForkSchedule(r *hx.Rng, k SpecKnobs) [4]uint64 {
 		hi = 1
 	}
 	var f [4]uint64
+	switch k.ForkBias {
+	case "zero": // a chain that starts on a later fork (the phase0 genesis state is upgraded before the first block)
+		if r.Bool() {
+			return [4]uint64{0, 1, 2, 3}
+		}
+		return [4]uint64{0, 0, 1, 2}
+	case "zero_all": // genesis records only
+		switch r.Intn(3) {
+		case 0:
+			return [4]uint64{0, 0, 0, 0}
+		case 1:
+			return [4]uint64{0, 0, 0, 1}
+		}
+		return [4]uint64{0, 1, 2, 3}
+	}
 	if k.ForkBias == "early" && hi >= 4 {
 		return [4]uint64{1, 2, 3, 4}
 	}
 	if k.ForkBias == "pair" && hi >= 4 {
-		// two consecutive forks at the same epoch
-		switch r.Intn(3) {
+		// two (or three) consecutive forks at the same epoch
+		switch r.Intn(4) {
 		case 0:
 			return [4]uint64{1, 1, 2, 4}
 		case 1:
 			return [4]uint64{1, 2, 2, 4}
+		case 2:
+			return [4]uint64{1, 1, 1, 3}
 		default:
 			return [4]uint64{1, 2, 3, 3}
 		}
 	}
 	if k.ForkBias == "triple" && hi >= 3 {
-		// three forks at the same epoch
-		if r.Bool() {
-			return [4]uint64{1, 1, 1, 3}
-		}
+		// bellatrix, capella and deneb together: a deneb state whose fork record has epoch == CAPELLA_FORK_EPOCH
 		return [4]uint64{1, 2, 2, 2}
 	}
 	if k.ForkBias == "phase0long" && k.Epochs >= 9 {
